@@ -745,13 +745,21 @@ func (d *Discharger) discharge(ob *Obligation) {
 	var mu sync.Mutex
 	var wg sync.WaitGroup
 	crs := make([]chunkResT, len(ob.smts))
+	gate := make(chan struct{}, 12) // paths of one obligation in flight (so that a failure can cut the rest short)
 	for ci, text := range ob.smts {
 		wg.Add(1)
+		gate <- struct{}{}
 		go func(ci int, text string) {
 			defer wg.Done()
+			defer func() { <-gate }()
 			cr := d.solveOne(ob, ci, text)
 			mu.Lock()
 			crs[ci] = cr
+			if cr.answer != want && !ob.Cover {
+				// the obligation has failed: the remaining paths are tried briefly (a refutation of one of
+				// them is still wanted for the report), not with the escalating timeouts
+				ob.failedAlready.Store(true)
+			}
 			mu.Unlock()
 		}(ci, text)
 	}
@@ -925,6 +933,21 @@ func (d *Discharger) solveOne(ob *Obligation, ci int, text string) (cr chunkResT
 		}
 		return a, first, agree
 	}
+	if ob.failedAlready.Load() && !ob.Cover && !d.thorough {
+		d.sem <- struct{}{}
+		a1, out1 := runBackend(context.Background(), backends[0], file, 3)
+		<-d.sem
+		cr.answer = a1
+		if a1 != "sat" && a1 != "unsat" {
+			cr.answer = "timeout"
+		}
+		cr.backend = backends[0].name
+		cr.outs[backends[0].name] = truncate(out1, 4000)
+		if a1 == "sat" {
+			cr.model = out1
+		}
+		return cr
+	}
 	// stage 0: cheaper variants (fewer hypotheses), briefly each
 	if ci < len(ob.variants) && !d.thorough && len(ob.variants[ci]) > 0 {
 		// quick tier: all variants and the full query at once on the usually fastest back end; the first proof wins
@@ -1016,7 +1039,8 @@ func (d *Discharger) solveOne(ob *Obligation, ci int, text string) (cr chunkResT
 		got = append(got, ans{backends[0].name, a1, out1, time.Since(start)})
 	}
 	a, first, agree := decided(got)
-	if a == "" || (d.thorough && len(agree) < 2 && !ob.Cover) {
+	giveUp := func() bool { return ob.failedAlready.Load() && !ob.Cover && !d.thorough }
+	if (a == "" && !giveUp()) || (d.thorough && len(agree) < 2 && !ob.Cover) {
 		to := d.timeout
 		if ob.Cover {
 			to = 5
@@ -1024,7 +1048,7 @@ func (d *Discharger) solveOne(ob *Obligation, ci int, text string) (cr chunkResT
 		got = append(got, try(to)...)
 		a, first, agree = decided(got)
 	}
-	if a == "" && !ob.Cover {
+	if a == "" && !ob.Cover && !giveUp() {
 		got = append(got, try(d.timeout*3)...)
 		a, first, agree = decided(got)
 	}
